@@ -5,3 +5,4 @@ pub mod json_rec;
 pub mod jsonnum;
 pub mod utf8;
 pub mod dsv;
+pub mod json_sm;
